@@ -4,6 +4,7 @@ import (
 	"fmt"
 	"go/constant"
 	"go/token"
+	"go/types"
 	"strings"
 
 	"golang.org/x/tools/go/ssa"
@@ -416,6 +417,41 @@ func checkC15(c *Ctx) {
 	}
 	R.min("C15.exports", 3)
 
+	// ---- C15.each: every 导入 statement of the import block is evaluated (a later statement naming the same module may
+	// list other names): in evalProgram no cycle of the import loop avoids evalImportStmt
+	if g := u.ssaFunc("pkg/exec", "evalProgram"); g != nil {
+		okE := false
+		for _, imp := range u.callsNamed(g, "pkg/exec.evalImportStmt") {
+			ii, isI := imp.(ssa.Instruction)
+			if !isI {
+				continue
+			}
+			for _, h := range loopHeaders(g) {
+				if !h.Dominates(ii.Block()) {
+					continue
+				}
+				okE = !cycleAvoidingE(h, func(x ssa.Instruction) bool { return x == ii }, nil, nil)
+			}
+		}
+		R.check(okE, "C15.each", "pkg/exec.evalProgram:import-loop", u.pos(g.Pos()), "every pass of the import loop evaluates its 导入 statement", "a pass of the import loop can skip evalImportStmt (e.g. for a module name seen before): the names listed by that 导入 statement never become available")
+	}
+	// "not imported" is told from "imported from the main module" (id 0): every read of Scope.externalRefs is a
+	// comma-ok lookup
+	nX := 0
+	for _, g := range u.srcFuncs("pkg/runtime") {
+		for _, in := range instrsOf(g) {
+			lk, isLk := in.(*ssa.Lookup)
+			if !isLk || containerFieldOf(lk.X) != "Scope.externalRefs" {
+				continue
+			}
+			nX++
+			R.check(lk.CommaOk, "C15.const", u.fname(g)+":externalRefs-lookup", u.pos(lk.Pos()), "the home module of a name is read with the 'is it imported at all' answer", "the home module of a name is read from externalRefs without the comma-ok form: for a name that is not imported the answer is 0, the main module's id, instead of 'none' - methods and types of other modules are then run in the main module's scope")
+		}
+	}
+	if nX == 0 {
+		R.viol("C15.const", "pkg/runtime:externalRefs-lookup", "", "no read of Scope.externalRefs found")
+	}
+
 	// ---- C15.notfound: the file finder answers "module not found" only when the file system says that the resolved
 	// path does not exist (any other test on the path text rejects modules that do exist)
 	if g := u.ssaFunc("pkg/exec", "Interpreter.LoadFile"); g != nil {
@@ -707,6 +743,86 @@ func checkC17(c *Ctx) {
 	} else {
 		R.lost("C17.api", "pkg/io.NewFileStream")
 	}
+
+	// ---- C17.keep: what a read / decode step returned together with an error is not kept for later (cached, stored in a
+	// field) before the error was tested: otherwise the empty text of a rejected file is served as the program next time
+	if g := u.ssaFunc("pkg/exec", "Interpreter.LoadFile"); g != nil {
+		nK := 0
+		for _, h := range family(g, 1) {
+			if h.Pkg != g.Pkg {
+				continue
+			}
+			tests := nilTests(h)
+			for _, in := range instrsOf(h) {
+				call, isCall := in.(*ssa.Call)
+				if !isCall {
+					continue
+				}
+				errV := errResult(call)
+				if errV == nil {
+					continue
+				}
+				var val ssa.Value
+				for _, r := range *call.Referrers() {
+					if ex, isEx := r.(*ssa.Extract); isEx && ex.Index == 0 {
+						val = ex
+					}
+				}
+				if val == nil {
+					continue
+				}
+				for _, r := range *val.Referrers() {
+					keeps := false
+					switch x := r.(type) {
+					case *ssa.Store:
+						_, local := x.Addr.(*ssa.Alloc)
+						keeps = x.Val == val && !local
+					case *ssa.MakeInterface:
+						for _, r2 := range *x.Referrers() {
+							if c2, isC := r2.(*ssa.Call); isC && strings.HasSuffix(u.callName(c2), ".Store") {
+								keeps = true
+							}
+						}
+					case *ssa.MapUpdate:
+						keeps = x.Value == val
+					}
+					if !keeps {
+						continue
+					}
+					nK++
+					tested := false
+					for _, t := range tests {
+						if t.X == errV && edgeDominates(t.If.Block(), t.OnNil, r.Block()) {
+							tested = true
+						}
+					}
+					R.check(tested, "C17.keep", u.fname(h)+":"+siteName(u, h, call)+":kept-after-test", u.pos(r.Pos()), "the result is kept only after its error was found nil", "the result of a read / decode step is stored for later before its error is tested: after a file was rejected (invalid UTF-8) the stored empty text is executed as the program on the next run")
+				}
+			}
+		}
+		if nK == 0 {
+			R.hold("C17.keep", "pkg/exec.Interpreter.LoadFile", "", "the file finder keeps nothing of what it read")
+		}
+	}
+
+	// ---- C17.texts: every program text handed to the parser in pkg/exec went through a decoding stream (which rejects
+	// invalid UTF-8): no syntax.NewParser argument is a plain []rune(string) conversion
+	nNP := 0
+	for _, g := range u.srcFuncs("pkg/exec") {
+		for _, cs := range u.callsNamed(g, "pkg/syntax.NewParser") {
+			nNP++
+			raw := ""
+			for _, src := range allSources(cs.Common().Args[0]) {
+				if cv, isCv := src.(*ssa.Convert); isCv {
+					if b, isB := cv.X.Type().Underlying().(*types.Basic); isB && b.Info()&types.IsString != 0 {
+						raw = u.pos(cv.Pos())
+					}
+				}
+			}
+			R.check(raw == "", "C17.texts", u.fname(g)+":"+siteName(u, g, cs), u.pos(cs.Pos()), "the text comes from a decoding stream", "a program text is converted with []rune(string) at "+raw+" instead of being decoded: invalid UTF-8 is not rejected, every bad byte silently becomes U+FFFD and the altered program runs")
+		}
+	}
+	R.count("parser_inputs_in_pkg_exec", nNP)
 
 	// ---- C17.nul: the lexer marks the end of input with RuneEOF (0); where the token reader meets that value it takes
 	// it for the end of the text only when the cursor really is at the end - a NUL character inside the source is an
